@@ -354,21 +354,32 @@ theorem stepTok_noCommand (env : Env) (v : Fenced) (wf : v.NoCommandWF env) (st 
   have hcfg := cfg_eval env li v.config wf.2.2.1
   simp only [stepTok, hcfg, addAll, List.getLast?_nil]
 
-theorem parse_items (env : Env) :
+/-- The induction over the items, open at the end: the tokenizer and the parser work through the
+rendered items and arrive – with a clean `LineParser`, the front-matter texts, the tests and the
+title state of the items – in front of whatever follows (`rest`). -/
+theorem parse_items_then (env : Env) :
     ∀ (items : List Item) (cs : Bool), ItemsWF env cs items →
-      ∀ (li : Nat) (st : PState), Clean st.lp →
-        ∃ st', parseTokens env st (runP env.languages .top cs li (render items)) = .ok st' ∧
+      ∀ (li : Nat) (st : PState), Clean st.lp → ∀ (rest : List Line),
+        ∃ st', Clean st'.lp ∧
           st'.docConfigs = st.docConfigs ++ docTexts items ∧
           st'.lp.testcases
-            = st.lp.testcases ++ expectedTests env items li st.lp.title st.titleParagraph := by
+            = st.lp.testcases ++ expectedTests env items li st.lp.title st.titleParagraph ∧
+          (st'.lp.title, st'.titleParagraph) = titleAfter env items st.lp.title st.titleParagraph ∧
+          parseTokens env st (runP env.languages .top cs li (render items ++ rest))
+            = parseTokens env st' (runP env.languages .top (csAfterAll cs items) (li + (render items).length) rest) := by
   intro items
   induction items with
   | nil =>
-    intro cs _ li st _
-    exact ⟨st, by simp [render, runP, Mode.flushTok, parseTokens], by simp [docTexts], by simp [expectedTests]⟩
+    intro cs _ li st hc rest
+    exact ⟨st, hc, by simp [docTexts], by simp [expectedTests], by simp [titleAfter],
+      by simp [render, csAfterAll]⟩
   | cons it r ih =>
-    intro cs hwf li st hc
+    intro cs hwf li st hc rest
     obtain ⟨hit, hr⟩ := hwf
+    have hlen : li + (render (it :: r)).length = li + it.lines.length + (render r).length := by
+      simp [render, Nat.add_assoc]
+    rw [hlen]
+    simp only [render, List.append_assoc, csAfterAll]
     cases it with
     | prose l =>
       obtain ⟨hx, hne⟩ : extractCodeBlockStart l = .ok none ∧ (cs = false → l ≠ frontMatterFence) := hit
@@ -376,56 +387,74 @@ theorem parse_items (env : Env) :
         cases cs
         · simp [hne rfl]
         · rfl
-      simp only [render, Item.lines, List.cons_append, List.nil_append]
+      simp only [Item.lines, List.cons_append, List.nil_append, List.length_cons, List.length_nil, Nat.zero_add]
       rw [runP_top_cons]
       simp only [h1, fencePure_none_of hx, Bool.false_eq_true, if_false, parseTokens, stepTok, expectedTests,
-        docTexts]
+        docTexts, titleAfter, Item.csAfter]
       cases ht : extractTitle env.isLetter l with
       | some x =>
         simp only []
         exact ih _ hr _ { st with titleParagraph := st.titleParagraph ++ [x],
                                   lp := st.lp.setTitle (joinNl (st.titleParagraph ++ [x])) }
-          ⟨hc.cmd, hc.exps, hc.code, hc.osi, hc.amc⟩
+          ⟨hc.cmd, hc.exps, hc.code, hc.osi, hc.amc⟩ rest
       | none =>
         simp only []
-        exact ih _ hr _ { st with titleParagraph := [] } hc
+        exact ih _ hr _ { st with titleParagraph := [] } hc rest
     | front body =>
       obtain ⟨hcs, hb, hok⟩ : cs = false ∧ (∀ x ∈ body, x ≠ frontMatterFence) ∧ env.docCfgOk (joinNl body) = true := hit
       subst hcs
-      simp only [render]
       rw [runP_front _ body hb]
-      simp only [parseTokens, stepTok, joinNumbered_number, hok, if_true, expectedTests, docTexts]
-      obtain ⟨st', h2, hd2, htc2⟩ := ih false hr (li + (body.length + 2))
-        { st with docConfigs := st.docConfigs ++ [joinNl body] } hc
-      exact ⟨st', h2, by simp [hd2], htc2⟩
+      have hl : (Item.front body).lines.length = body.length + 2 := by simp [Item.lines]
+      simp only [parseTokens, stepTok, joinNumbered_number, hok, if_true, expectedTests, docTexts, titleAfter,
+        Item.csAfter, hl]
+      obtain ⟨st', hc', hd2, htc2, htt2, h2⟩ := ih false hr (li + (body.length + 2))
+        { st with docConfigs := st.docConfigs ++ [joinNl body] } hc rest
+      exact ⟨st', hc', by simp [hd2], htc2, htt2, h2⟩
     | block b =>
       have wf : b.WF env := hit
-      simp only [render, Item.lines]
+      simp only [Item.lines]
       rw [runP_block env b wf]
       obtain ⟨st1, h1, hc1, ht1, htp1, hd1, htc1⟩ :=
         stepTok_block env b wf st hc li (li + 1 + b.comments.length) (number (li + 1) b.comments)
-      simp only [parseTokens, h1]
-      obtain ⟨st', h2, hd2, htc2⟩ := ih true hr (li + b.lines.length) st1 hc1
-      refine ⟨st', h2, by rw [hd2, hd1]; simp [docTexts], ?_⟩
-      rw [htc2, htc1, ht1, htp1]
-      simp [expectedTests]
+      simp only [parseTokens, h1, Item.csAfter]
+      obtain ⟨st', hc', hd2, htc2, htt2, h2⟩ := ih true hr (li + b.lines.length) st1 hc1 rest
+      refine ⟨st', hc', by rw [hd2, hd1]; simp [docTexts], ?_, ?_, h2⟩
+      · rw [htc2, htc1, ht1, htp1]
+        simp [expectedTests]
+      · rw [htt2, ht1, htp1]
+        simp [titleAfter]
     | foreign v =>
       have wf : v.ForeignWF env := hit
       have hlang : v.language.isEmpty = false := by
         have := wf.2.2.1
         cases hh : v.language <;> simp_all
-      simp only [render, Item.lines]
+      simp only [Item.lines]
       rw [runP_foreign env v wf]
-      simp only [parseTokens, stepTok, hlang, Bool.false_eq_true, if_false, expectedTests, docTexts]
-      exact ih true hr (li + v.lines.length) st hc
+      simp only [parseTokens, stepTok, hlang, Bool.false_eq_true, if_false, expectedTests, docTexts, titleAfter,
+        Item.csAfter]
+      exact ih true hr (li + v.lines.length) st hc rest
     | noCommand v =>
       have wf : v.NoCommandWF env := hit
-      simp only [render, Item.lines]
+      simp only [Item.lines]
       rw [runP_noCommand env v wf]
-      simp only [parseTokens, stepTok_noCommand env v wf, expectedTests, docTexts]
+      simp only [parseTokens, stepTok_noCommand env v wf, expectedTests, docTexts, titleAfter, Item.csAfter]
       exact ih true hr (li + v.lines.length)
         { st with lp := st.lp.setConfig (stripBraces v.config), titleParagraph := [] }
-        ⟨hc.cmd, hc.exps, hc.code, hc.osi, hc.amc⟩
+        ⟨hc.cmd, hc.exps, hc.code, hc.osi, hc.amc⟩ rest
+
+theorem parse_items (env : Env) :
+    ∀ (items : List Item) (cs : Bool), ItemsWF env cs items →
+      ∀ (li : Nat) (st : PState), Clean st.lp →
+        ∃ st', parseTokens env st (runP env.languages .top cs li (render items)) = .ok st' ∧
+          st'.docConfigs = st.docConfigs ++ docTexts items ∧
+          st'.lp.testcases
+            = st.lp.testcases ++ expectedTests env items li st.lp.title st.titleParagraph := by
+  intro items cs hwf li st hc
+  obtain ⟨st', _, hd, ht, _, h⟩ := parse_items_then env items cs hwf li st hc []
+  refine ⟨st', ?_, hd, ht⟩
+  rw [List.append_nil] at h
+  rw [h]
+  simp [runP, Mode.flushTok, parseTokens]
 
 theorem parseLines_render (env : Env) (items : List Item) (hwf : ItemsWF env false items) :
     parseLines env (render items)
